@@ -8,6 +8,7 @@ import VModel
 import VModel.LRU
 import VModel.Spark
 import DriverPandas
+import DriverPyList
 
 open Lean V V.Gen
 
@@ -244,6 +245,7 @@ def handle (line : String) : Json :=
       else if op == "lru" then handleLRU req
       else if op == "spark" then handleSpark req
       else if op == "pandas" then PdDrv.handle req
+      else if op == "pylist" then PyDrv.handle req
       else if op == "ping" then Json.mkObj [("pong", true)]
       else Json.mkObj [("err", "unknown-op")]
     match req.getObjVal? "id" with
